@@ -21,7 +21,7 @@ Lenient == Has(Sc, "errors") /\ Sc.errors = "warn"
 ErrInjected == Has(Sc, "err")
 
 St0 == [yielded |-> <<>>, served |-> {}, req |-> [oids |-> <<>>, kind |-> "none", maxrep |-> 0], nreq |-> 0,
-        asked |-> {}, revealed |-> {}, gnFault |-> FALSE, nonAdv |-> FALSE, faultAt |-> 0, stuckSeen |-> FALSE,
+        asked |-> {}, unanswered |-> {}, revealed |-> {}, gnFault |-> FALSE, nonAdv |-> FALSE, faultAt |-> 0, stuckSeen |-> FALSE,
         pred |-> <<>>, predEnd |-> FALSE, predY |-> <<>>, contFrom |-> <<>>, drift |-> 0]
 
 AsVbs(vbs) == [i \in DOMAIN vbs |-> [oid |-> vbs[i][1], eomv |-> vbs[i][2] = -1]]
@@ -36,7 +36,8 @@ OnReq(s, e) ==
   LET dr == IF s.predEnd \/ e.oids # s.pred THEN 1 ELSE 0 IN
   [st |-> [s EXCEPT !.req = e, !.nreq = @ + 1, !.asked = @ \cup ToSet(e.oids), !.drift = @ + dr],
    cl |-> << <<"request_budget_exceeded", s.nreq + 1 <= Cardinality(s.revealed) + 2>>,
-             <<"re_requested_oid", \A i \in DOMAIN e.oids : e.oids[i] \notin s.asked>>,
+             \* (an OID the agent's truncated answer had no binding for may - must - be asked for again)
+             <<"re_requested_oid", \A i \in DOMAIN e.oids : e.oids[i] \notin s.asked \/ e.oids[i] \in s.unanswered>>,
              <<"request_after_fault", s.faultAt = 0>> >>]
 
 OnResp(s, e) ==
@@ -60,6 +61,7 @@ OnResp(s, e) ==
       ys == IF stop THEN <<>> ELSE NewYields(groups, Roots, ToSet(s.predY))
   IN [st |-> [s EXCEPT !.revealed = @ \cup { got[k].oid : k \in { j \in DOMAIN got : ~got[j].eomv } },
                        !.served = @ \cup { <<e.vbs[k][1], e.vbs[k][2]>> : k \in DOMAIN e.vbs },
+                       !.unanswered = { r.oids[k] : k \in { j \in DOMAIN r.oids : j > Len(e.vbs) } },
                        !.gnFault = @ \/ gnF, !.nonAdv = @ \/ anyNA,
                        \* the walk cannot go on from where the agent put it: for a root that is not finished, the last OID received does not lie
                        \* beyond the one it was continued from (whichever fetcher is used)
